@@ -33,6 +33,8 @@ def tasks(tier, params):
     out.append(('opt.last', {'kind': 'opt', 'first': False}))
     out.append(('opt.first3', {'kind': 'opt', 'first': True, 'extra': True}))
     out.append(('opt.mid3', {'kind': 'opt', 'first': None, 'extra': True}))
+    out.append(('opt.two', {'kind': 'opt2'}))
+    out.append(('case', {'kind': 'case'}))
     return out
 
 
@@ -71,6 +73,21 @@ def run_task(prog, tid, params, tier):
             m += [mk('u8', 0)] + be_bytes(mk('u16', params['code'])) + be_bytes(cls) + be_bytes(ttl)
             m += be_bytes(mk('u16', rdlen)) + [sym('rd%d' % i, 'u8') for i in range(rdlen)]
             msgs.append(m)
+    elif kind == 'opt2':
+        # two different OPT records around an A record: the first one is the message's EDNS data, the second stays a record
+        def opt_rec(tag):
+            return [mk('u8', 0)] + be_bytes(mk('u16', 41)) + be_bytes(sym('udp' + tag, 'u16')) + be_bytes(sym('ottl' + tag, 'u32')) + be_bytes(mk('u16', 0))
+        a_rec = [mk('u8', 0)] + be_bytes(mk('u16', 1)) + be_bytes(mk('u16', 1)) + be_bytes(sym('ttla', 'u32')) + be_bytes(mk('u16', 4)) + be_bytes(sym('addr', 'u32'))
+        hdr = be_bytes(sym('id', 'u16')) + [mk('u8', 0), mk('u8', 0)] + be_bytes(mk('u16', 0)) * 3 + be_bytes(mk('u16', 3))
+        msgs.append(hdr + opt_rec('1') + a_rec + opt_rec('2'))
+    elif kind == 'case':
+        # a question name and an owner name of the same shape with independent bytes (equal, different, or differing only in
+        # letter case): compression may only merge them when they are byte-wise equal
+        qn = [mk('u8', 2), sym('c0', 'u8'), sym('c1', 'u8'), mk('u8', 0)]
+        on = [mk('u8', 2), sym('d0', 'u8'), sym('d1', 'u8'), mk('u8', 0)]
+        hdr = be_bytes(mk('u16', 0x1234)) + [mk('u8', 0), mk('u8', 0)] + be_bytes(mk('u16', 1)) + be_bytes(mk('u16', 1)) + be_bytes(mk('u16', 0)) * 2
+        msgs.append(hdr + qn + be_bytes(mk('u16', 1)) + be_bytes(mk('u16', 1)) +
+                    on + be_bytes(mk('u16', 1)) + be_bytes(mk('u16', 1)) + be_bytes(mk('u32', 60)) + be_bytes(mk('u16', 4)) + be_bytes(sym('addr', 'u32')))
     else:
         for nopt in ((0,) if params.get('extra') else (0, 4, 5)):
             a_rec = [mk('u8', 0)] + be_bytes(mk('u16', 1)) + be_bytes(mk('u16', 1)) + be_bytes(sym('ttla', 'u32')) + be_bytes(mk('u16', 4)) + be_bytes(sym('addr', 'u32'))
